@@ -233,6 +233,125 @@ def run_jail(ctx, h, regal, specs=None):
     return [json.loads(l) for l in open(os.path.join(jail, 'out.jsonl'))], None
 
 
+def _paths(d, prefix=(), depth=4):
+    out = []
+    if isinstance(d, dict) and depth > 0:
+        for k in sorted(d):
+            out.append(prefix + (k,))
+            out += _paths(d[k], prefix + (k,), depth - 1)
+    return out
+
+
+def _without(d, path):
+    import copy
+    d = copy.deepcopy(d)
+    cur = d
+    for k in path[:-1]:
+        if not isinstance(cur, dict) or k not in cur:
+            return d
+        cur = cur[k]
+    if isinstance(cur, dict):
+        cur.pop(path[-1], None)
+    return d
+
+
+def shrink_merge(ctx, h, spec, fails, rounds=12):
+    """delta-debugging on the user document and the synthetic provided document: drop one key at a
+    time (all candidates of a round go through the real code in one harness run) while [fails] holds"""
+    spec = dict(spec)
+    for _ in range(rounds):
+        cands = []
+        for path in _paths(spec['yaml_doc']):
+            c = dict(spec)
+            c['yaml_doc'] = _without(spec['yaml_doc'], path)
+            c['model_doc'] = _without(spec['model_doc'], path)
+            cands.append(c)
+        if spec.get('provided'):
+            for path in _paths(spec['provided']):
+                c = dict(spec)
+                c['provided'] = _without(spec['provided'], path)
+                if isinstance(c['provided'].get('rules'), dict):
+                    cands.append(c)
+        if not cands:
+            break
+        recs = [x for x in run_harness(ctx, 'merge', h, specs=cands) if x['kind'] == 'merge']
+        better = [x for x in recs if fails(x)]
+        if not better:
+            break
+        spec = min(better, key=lambda x: len(json.dumps([x['spec']['yaml_doc'], x['spec'].get('provided')])))['spec']
+    return spec
+
+
+def eval_config_chunk(ctx, k, items, tables, lookup, preal):
+    """items: [(global index, merge record)]; returns ({check: failing global indices (R*: (index, which))}, #u, #m, #r)"""
+    I = Interner()
+    tdefs = []
+    for tid, t in sorted(tables.items()):
+        I.defs.append('Definition %s : caps := %s.' % (tbl(tid), clist('(%s, %s)' % (I.s(n), I.s(d)) for n, d in t)))
+    tdefs.append('Definition lookup_tbl : list (str * caps) := %s.' % clist('(%s, %s)' % (I.s(u), tbl(t)) for u, t in sorted(lookup.items())))
+    if preal is not None:
+        tdefs.append('Definition provided_real : config := %s.' % config(I, preal))
+    ucases, mcases, rcases = [], [], []
+    uidx, midx, ridx = [], [], []    # global index (+ which round trip) of each case
+    for n, x in items:
+        doc = jval(I, x['spec']['model_doc'])
+        # the 200-entry capability lists are compared in Coq for documents with a capabilities section and
+        # for every 8th other case; for the rest the harness itself checked them against the default table
+        full = cbool('capabilities' in x['spec']['yaml_doc'] or n % 8 == 0)
+        if 'user_err' in x:
+            if x['user_err'] not in UERR:
+                continue
+            ucases.append('{| uc_full := %s; uc_doc := %s; uc_got := Err %s |}' % (full, doc, UERR[x['user_err']]))
+            uidx.append(n)
+            continue
+        user = config(I, x['user'])
+        ucases.append('{| uc_full := %s; uc_doc := %s; uc_got := Ok %s |}' % (full, doc, user))
+        uidx.append(n)
+        if 'merged' not in x:
+            continue
+        prov = 'provided_real' if x.get('provided_ref') == 'real' else config(I, x['provided'])
+        mcases.append('{| mc_full := %s; mc_provided := %s; mc_user := %s; mc_merged := %s; mc_dcaps := Tbl_dcaps |}'
+                      % (full, prov, user, config(I, x['merged'])))
+        midx.append(n)
+        for which, c in (('rt_user', user), ('rt_merged', config(I, x['merged']))):
+            rt = x.get(which)
+            if rt is None:
+                continue
+            if 'marshal_err' in rt:
+                rcases.append('{| rc_full := %s; rc_config := %s; rc_doc := None; rc_reloaded := Err EDecode |}' % (full, c))
+            elif 'reload_err' in rt:
+                rcases.append('{| rc_full := %s; rc_config := %s; rc_doc := Some %s; rc_reloaded := Err %s |}'
+                              % (full, c, I.share('doc', 'jval', jval(I, rt['doc'])), UERR.get(rt['reload_err'], 'EDecode')))
+            else:
+                rcases.append('{| rc_full := %s; rc_config := %s; rc_doc := Some %s; rc_reloaded := Ok %s |}'
+                              % (full, c, I.share('doc', 'jval', jval(I, rt['doc'])), config(I, rt['reloaded'])))
+            ridx.append((n, which))
+    defs = list(I.defs) + tdefs
+    defs.append('Definition ucases : list unmarshal_case := %s.' % clist(ucases))
+    defs.append('Definition mcases : list merge_case := %s.' % clist(mcases))
+    defs.append('Definition rcases : list roundtrip_case := %s.' % clist(rcases))
+    q = {
+        'U1': 'failing (unmarshal_ok lookup_tbl %s) 0 ucases' % DASH,
+        'M1': 'failing merge_model_ok 0 mcases',
+        'M2': 'failing merge_spec_ok 0 mcases',
+        'M3': 'failing merge_in_domain 0 mcases',
+        'R1': 'failing marshal_model_ok 0 rcases',
+        'R2': 'failing (reload_model_ok lookup_tbl %s) 0 rcases' % DASH,
+        'R3': 'failing roundtrip_spec_ok 0 rcases',
+        'R4': 'failing roundtrip_caps_ok 0 rcases',
+        'R5': 'failing roundtrip_in_domain 0 rcases',
+    }
+    if preal is not None and k == 0:
+        q['G1'] = '(if config_eqb_nocaps provided_real provided_config && negb provided_has_capabilities then [] else [0])%nat'
+    r = eval_lists(ctx, 'Cases_C18_configs_%d' % k, HEADER, defs, q)
+    out = {'U1': [uidx[i] for i in r['U1']], 'G1': r.get('G1', [])}
+    for key in ('M1', 'M2', 'M3'):
+        out[key] = [midx[i] for i in r[key]]
+    for key in ('R1', 'R2', 'R3', 'R4', 'R5'):
+        out[key] = [ridx[i] for i in r[key]]
+    return out, len(ucases), len(mcases), len(rcases)
+
+
 def corpus_specs(kind):
     d = os.path.join(vlib.VERIF, 'corpus', 'C18')
     out = []
@@ -380,87 +499,42 @@ def run(ctx):
         elif x['kind'] == 'provided-real':
             preal = x['config']
     merges = [x for x in recs if x['kind'] == 'merge']
+    for x in [x for x in merges if 'user_err' in x and x['user_err'] not in UERR][:1]:
+        vlib.violation(ctx, {'kind': 'unmarshal-unclassified-error', 'case': x['spec'], 'error': x['user_err']}, no_input=True)
 
-    I = Interner()
-    tdefs = []
-    for tid, t in sorted(tables.items()):
-        I.defs.append('Definition %s : caps := %s.' % (tbl(tid), clist('(%s, %s)' % (I.s(n), I.s(d)) for n, d in t)))
-    tdefs.append('Definition lookup_tbl : list (str * caps) := %s.' % clist('(%s, %s)' % (I.s(u), tbl(t)) for u, t in sorted(lookup.items())))
-    tdefs.append('Definition provided_real : config := %s.' % config(I, preal))
-
-    ucases, mcases, rcases = [], [], []
-    uidx, midx, ridx = [], [], []    # index into merges (+ which round trip)
-    for n, x in enumerate(merges):
-        doc = jval(I, x['spec']['model_doc'])
-        # the 200-entry capability lists are compared in Coq for documents with a capabilities section and
-        # for every 8th other case; for the rest the harness itself checked them against the default table
-        full = cbool('capabilities' in x['spec']['yaml_doc'] or n % 8 == 0)
-        if 'user_err' in x:
-            if x['user_err'] not in UERR:
-                vlib.violation(ctx, {'kind': 'unmarshal-unclassified-error', 'case': x['spec'], 'error': x['user_err']}, no_input=True)
-                continue
-            ucases.append('{| uc_full := %s; uc_doc := %s; uc_got := Err %s |}' % (full, doc, UERR[x['user_err']]))
-            uidx.append(n)
-            continue
-        user = config(I, x['user'])
-        ucases.append('{| uc_full := %s; uc_doc := %s; uc_got := Ok %s |}' % (full, doc, user))
-        uidx.append(n)
-        if 'merged' not in x:
-            continue
-        prov = 'provided_real' if x.get('provided_ref') == 'real' else config(I, x['provided'])
-        mcases.append('{| mc_full := %s; mc_provided := %s; mc_user := %s; mc_merged := %s; mc_dcaps := Tbl_dcaps |}'
-                      % (full, prov, user, config(I, x['merged'])))
-        midx.append(n)
-        for which, c in (('rt_user', user), ('rt_merged', config(I, x['merged']))):
-            rt = x.get(which)
-            if rt is None:
-                continue
-            if 'marshal_err' in rt:
-                rcases.append('{| rc_full := %s; rc_config := %s; rc_doc := None; rc_reloaded := Err EDecode |}' % (full, c))
-            elif 'reload_err' in rt:
-                rcases.append('{| rc_full := %s; rc_config := %s; rc_doc := Some %s; rc_reloaded := Err %s |}'
-                              % (full, c, I.share('doc', 'jval', jval(I, rt['doc'])), UERR.get(rt['reload_err'], 'EDecode')))
-            else:
-                rcases.append('{| rc_full := %s; rc_config := %s; rc_doc := Some %s; rc_reloaded := Ok %s |}'
-                              % (full, c, I.share('doc', 'jval', jval(I, rt['doc'])), config(I, rt['reloaded'])))
-            ridx.append((n, which))
-
+    # the cases are evaluated in chunks (own case file each, a few at a time)
+    CH = 260
+    chunks = [(k, list(range(i, min(i + CH, len(merges))))) for k, i in enumerate(range(0, len(merges), CH))]
     res = {k: [] for k in ('U1', 'M1', 'M2', 'M3', 'R1', 'R2', 'R3', 'R4', 'R5', 'G1')}
+    n_u = n_m = n_r = 0
     if merges:
-        defs = list(I.defs) + tdefs
-        defs.append('Definition ucases : list unmarshal_case := %s.' % clist(ucases))
-        defs.append('Definition mcases : list merge_case := %s.' % clist(mcases))
-        defs.append('Definition rcases : list roundtrip_case := %s.' % clist(rcases))
-        res = eval_lists(ctx, 'Cases_C18_configs', HEADER, defs, {
-            'U1': 'failing (unmarshal_ok lookup_tbl %s) 0 ucases' % DASH,
-            'M1': 'failing merge_model_ok 0 mcases',
-            'M2': 'failing merge_spec_ok 0 mcases',
-            'M3': 'failing merge_in_domain 0 mcases',
-            'R1': 'failing marshal_model_ok 0 rcases',
-            'R2': 'failing (reload_model_ok lookup_tbl %s) 0 rcases' % DASH,
-            'R3': 'failing roundtrip_spec_ok 0 rcases',
-            'R4': 'failing roundtrip_caps_ok 0 rcases',
-            'R5': 'failing roundtrip_in_domain 0 rcases',
-            'G1': '(if config_eqb_nocaps provided_real provided_config && negb provided_has_capabilities then [] else [0])%nat',
-        })
+        from concurrent.futures import ThreadPoolExecutor
+        with ThreadPoolExecutor(max_workers=4) as ex:
+            outs = list(ex.map(lambda kc: eval_config_chunk(ctx, kc[0], [(n, merges[n]) for n in kc[1]], tables, lookup, preal), chunks))
+        for r1, cu, cm, cr in outs:
+            for k in res:
+                res[k] += r1[k]
+            n_u, n_m, n_r = n_u + cu, n_m + cm, n_r + cr
 
     def size(x):
         return len(json.dumps(x['spec']['yaml_doc']))
 
     if os.environ.get('C18_VERBOSE'):
-        for key, idxmap in (('U1', uidx), ('M1', midx), ('R1', [n for n, _ in ridx]), ('R2', [n for n, _ in ridx])):
-            for i in sorted(res[key], key=lambda i: size(merges[idxmap[i]]))[:3]:
-                x = merges[idxmap[i]]
+        for key in ('U1', 'M1', 'R1', 'R2'):
+            for i in sorted([i if isinstance(i, int) else i[0] for i in res[key]], key=lambda i: size(merges[i]))[:3]:
+                x = merges[i]
                 log('%s mismatch: doc=%s user=%s err=%s' % (key, json.dumps(x['spec']['model_doc']), json.dumps(x.get('user'))[:600], x.get('user_err')))
 
     # property on the implementation's own outputs (Go side, independent of the model)
     go_oo = sorted([x for x in merges if x.get('pred_only_overrides')], key=size)
     for x in go_oo[:1]:
-        vlib.violation(ctx, {'kind': 'merge-changes-unwritten-setting', 'case': x['spec'], 'what': x['pred_only_overrides'][:5]},
+        small = shrink_merge(ctx, h, x['spec'], lambda r: bool(r.get('pred_only_overrides')))
+        vlib.violation(ctx, {'kind': 'merge-changes-unwritten-setting', 'case': small, 'what': x['pred_only_overrides'][:5]},
                        signature={'kind': 'merge-changes-unwritten-setting', 'key': re.sub(r'[a-z0-9-]+/[a-z0-9-]+(/[a-z0-9-]+)?', 'X', x['pred_only_overrides'][0])})
     go_uw = sorted([x for x in merges if x.get('pred_user_wins')], key=size)
     for x in go_uw[:1]:
-        vlib.violation(ctx, {'kind': 'user-setting-not-applied', 'case': x['spec'], 'what': x['pred_user_wins'][:5]},
+        small = shrink_merge(ctx, h, x['spec'], lambda r: bool(r.get('pred_user_wins')))
+        vlib.violation(ctx, {'kind': 'user-setting-not-applied', 'case': small, 'what': x['pred_user_wins'][:5]},
                        signature={'kind': 'user-setting-not-applied', 'key': re.sub(r'[a-z0-9-]+/[a-z0-9-]+(/[a-z0-9-]+)?', 'X', x['pred_user_wins'][0])})
     for x in sorted([x for x in merges if x.get('pred_reload_differs')], key=size)[:1]:
         vlib.violation(ctx, {'kind': 'second-load-differs', 'case': x['spec']}, signature={'kind': 'second-load-differs', 'key': 'any'})
@@ -471,14 +545,13 @@ def run(ctx):
         vlib.violation(ctx, {'kind': 'merge-error', 'case': x['spec'], 'error': x['merge_err']}, no_input=False)
     # the same property evaluated inside Coq on the observed merge (M2), when Go did not already report it
     if res['M2'] and not go_oo:
-        x = merges[midx[sorted(res['M2'], key=lambda i: size(merges[midx[i]]))[0]]]
+        x = merges[sorted(res['M2'], key=lambda i: size(merges[i]))[0]]
         vlib.violation(ctx, {'kind': 'merge-changes-unwritten-setting', 'case': x['spec'], 'what': 'Check.C18Check.merge_spec_ok is false on the observed merge'},
                        signature={'kind': 'merge-changes-unwritten-setting', 'key': 'coq'})
     # round trip: everything but the capabilities must come back
-    rt_bad = sorted(res['R3'], key=lambda i: size(merges[ridx[i][0]]))
+    rt_bad = sorted(res['R3'], key=lambda nw: size(merges[nw[0]]))
     classes = {}
-    for i in rt_bad:
-        n, which = ridx[i]
+    for n, which in rt_bad:
         d = merges[n][which]
         if 'reload_err' in d or 'marshal_err' in d:
             cls = 'reload-error'
@@ -486,16 +559,18 @@ def run(ctx):
             cls = ','.join(x for x in (d.get('diff') or []) if x not in ('caps', 'caps_url')) or 'coq-only'
         classes.setdefault(cls, (n, which))
     for cls, (n, which) in sorted(classes.items()):
-        vlib.violation(ctx, {'kind': 'yaml-roundtrip', 'case': merges[n]['spec'], 'which': which, 'lost': cls,
+        want = set(cls.split(','))
+        small = merges[n]['spec'] if cls in ('coq-only', 'reload-error') else shrink_merge(
+            ctx, h, merges[n]['spec'], lambda r, w=which: want <= set((r.get(w) or {}).get('diff') or []))
+        vlib.violation(ctx, {'kind': 'yaml-roundtrip', 'case': small, 'which': which, 'lost': cls,
                              'what': 'yaml.Unmarshal(yaml.Marshal(c)) differs from c in: ' + cls},
                        signature={'kind': 'yaml-roundtrip', 'key': cls})
     # correspondence
-    for key, rel, idxmap in (('U1', 'unmarshal_ok (Model/ConfigMerge.v unmarshal)', uidx), ('M1', 'merge_model_ok (Model/ConfigMerge.v load)', midx),
-                             ('R1', 'marshal_model_ok (Model/ConfigMerge.v marshal)', [n for n, _ in ridx]),
-                             ('R2', 'reload_model_ok (unmarshal (marshal c))', [n for n, _ in ridx])):
+    for key, rel in (('U1', 'unmarshal_ok (Model/ConfigMerge.v unmarshal)'), ('M1', 'merge_model_ok (Model/ConfigMerge.v load)'),
+                     ('R1', 'marshal_model_ok (Model/ConfigMerge.v marshal)'), ('R2', 'reload_model_ok (unmarshal (marshal c))')):
         if res[key] and not ctx.violations:
-            i = sorted(res[key], key=lambda i: size(merges[idxmap[i]]))[0]
-            x = merges[idxmap[i]]
+            i = sorted([i if isinstance(i, int) else i[0] for i in res[key]], key=lambda i: size(merges[i]))[0]
+            x = merges[i]
             vlib.violation(ctx, {'kind': 'correspondence', 'relation': 'Check.C18Check.' + rel, 'case': x['spec'],
                                  'observed': {k: x.get(k) for k in ('user', 'user_err', 'merged', 'provided', 'rt_user', 'rt_merged')},
                                  'n_mismatches': len(res[key])}, no_input=True)
@@ -522,7 +597,7 @@ def run(ctx):
     distinct_cfg = len({json.dumps([x['spec'].get('provided'), x['spec']['yaml_doc']], sort_keys=True) for x in merges
                         if x['spec']['yaml_doc'].get('rules')})
     cov = proof_coverage(ctx, {
-        'evaluations': len(trees) * 3 + sum(1 for t in trees if t['spec']['cli']) + len(ucases) + len(mcases) + 2 * len(rcases),
+        'evaluations': len(trees) * 3 + sum(1 for t in trees if t['spec']['cli']) + n_u + n_m + 2 * n_r,
         'distinct_nontrivial': distinct_trees + distinct_cfg,
         'rule': 'trees: distinct (placement of .regal / .regal.yaml entries per directory, start from dir or file, user-level state) tuples; '
                 'exhaustive for {none,.regal/config.yaml} x {none,.regal.yaml} per directory on chains of depth 0..4 plus chains with '
@@ -531,9 +606,9 @@ def run(ctx):
         'trees_at_file_system_root': sum(1 for t in trees if t.get('at_root')), 'root_level_trees_skipped': jail_skipped,
         'trees': len(trees), 'trees_through_cli': sum(1 for t in trees if t['spec']['cli']), 'tree_depth_histogram': hist,
         'tree_outcomes': outcomes,
-        'unmarshal_cases': len(ucases), 'unmarshal_classes': uclass, 'merge_cases': len(mcases),
+        'unmarshal_cases': n_u, 'unmarshal_classes': uclass, 'merge_cases': n_m,
         'merge_cases_real_bundle': sum(1 for x in merges if x.get('provided_ref') == 'real' and 'merged' in x),
-        'roundtrip_cases': len(rcases), 'roundtrip_capabilities_not_restored': rt_caps_lost,
+        'roundtrip_cases': n_r, 'roundtrip_capabilities_not_restored': rt_caps_lost,
         'merge_cases_outside_theorem_domain': len(res['M3']), 'roundtrip_cases_outside_theorem_domain': len(res['R5']),
         'user_config_mutated_by_load': sum(1 for x in merges if x.get('pred_user_mutated')),
         'mismatch_tree_model': len(r['T1']), 'mismatch_tree_spec': len(r['T2']), 'mismatch_tree_spec_files_only': len(r['T6']), 'mismatch_cli_model': len(r['T3']),
